@@ -1,77 +1,193 @@
 /-
 C11 — HTTP clients encode requests losslessly and refuse unsupported kinds.
-Property theorems only; helper lemmas are in the `Lemmas` section and are not
-part of the audited list.
+Property theorems only; helper lemmas are in Genq/Proofs/HttpEscape.lean and HttpUrl.lean.
 -/
 import Genq.Model.Http
+import Genq.Proofs.HttpUrl
 namespace Genq.Http
-
-section Lemmas
-
-theorem unhex_hexDigit : ∀ n, n < 16 → unhex (hexDigit n) = some n := by
-  decide
-
-theorem hexDigit_not_special : ∀ n, n < 16 → hexDigit n ≠ 37 ∧ hexDigit n ≠ 43 := by
-  decide
-
-theorem unescape_plain (b : Nat) (r : Bytes) (h37 : b ≠ 37) (h43 : b ≠ 43) :
-    queryUnescape (b :: r) = (queryUnescape r).map (b :: ·) := by
-  conv => lhs; unfold queryUnescape
-  split <;> simp_all
-
-theorem unescape_plus (r : Bytes) :
-    queryUnescape (43 :: r) = (queryUnescape r).map (32 :: ·) := by
-  rw [queryUnescape]
-
-theorem unescape_pct (h l : Nat) (r : Bytes) (a b : Nat)
-    (ha : unhex h = some a) (hb : unhex l = some b) :
-    queryUnescape (37 :: h :: l :: r) = (queryUnescape r).map ((a * 16 + b) :: ·) := by
-  rw [queryUnescape, ha, hb]
-  cases queryUnescape r <;> rfl
-
-theorem unreserved_not_special (b : Nat) (h : unreserved b = true) : b ≠ 37 ∧ b ≠ 43 := by
-  constructor <;> (intro e; subst e; revert h; decide)
-
-theorem unescape_escapeByte (b : Nat) (hb : b < 256) (r : Bytes) :
-    queryUnescape (escapeByte b ++ r) = (queryUnescape r).map (b :: ·) := by
-  unfold escapeByte
-  by_cases hu : unreserved b = true
-  · have := unreserved_not_special b hu
-    simp only [hu, if_true, List.cons_append, List.nil_append]
-    exact unescape_plain b r this.1 this.2
-  · simp only [hu, Bool.false_eq_true, if_false]
-    by_cases hs : (b == 32) = true
-    · have : b = 32 := by simpa using hs
-      subst this
-      simp only [beq_self_eq_true, if_true, List.cons_append, List.nil_append]
-      exact unescape_plus r
-    · simp only [hs, Bool.false_eq_true, if_false, List.cons_append, List.nil_append]
-      have h1 : b / 16 < 16 := by omega
-      have h2 : b % 16 < 16 := by omega
-      rw [unescape_pct _ _ _ _ _ (unhex_hexDigit _ h1) (unhex_hexDigit _ h2)]
-      have : b / 16 * 16 + b % 16 = b := by omega
-      rw [this]
-
-end Lemmas
 
 /-- **C11_unescape_escape** — percent-encoding is lossless: for every byte string
     `url.QueryUnescape (url.QueryEscape s) = s`. -/
 theorem C11_unescape_escape (s : Bytes) (hs : allBytes s = true) :
-    queryUnescape (queryEscape s) = some s := by
-  induction s with
+    queryUnescape (queryEscape s) = some s := unescape_escape s hs
+
+/-- **C11_parse_inverts_encode** — url.ParseQuery inverts url.Values.Encode: any list of
+    key/value byte strings (any bytes: '&', '=', ';', '%', '+', space, high bytes) is read back
+    exactly, in order -/
+theorem C11_parse_inverts_encode (kvs : List (Bytes × Bytes))
+    (h : ∀ kv ∈ kvs, allBytes kv.1 = true ∧ allBytes kv.2 = true) :
+    parseQuery (encodeValues kvs) = kvs :=
+  parseQuery_encodeValues kvs (fun kv hkv => by simp [pairBytes, h kv hkv])
+
+/-- the multimap createGetRequest ends up with, before encoding -/
+def getMap (existing query opName : Bytes) (vars : Option Bytes) : MultiMap :=
+  let m0 : MultiMap := (parseQuery existing).foldl (fun m kv => mmAdd m kv.1 kv.2) []
+  let m1 := if query.isEmpty then m0 else mmSet m0 kQuery query
+  let m2 := if opName.isEmpty then m1 else mmSet m1 kOpName opName
+  match vars with
+  | none => m2
+  | some v => mmSet m2 kVariables v
+
+theorem getRawQuery_eq (existing query opName : Bytes) (vars : Option Bytes)
+    (hu : query.isEmpty = false ∨ opName.isEmpty = false ∨ vars.isSome = true) :
+    getRawQuery existing query opName vars = encodeValues (flattenMM (sortMM (getMap existing query opName vars))) := by
+  unfold getRawQuery getMap
+  cases hq : query.isEmpty <;> cases ho : opName.isEmpty <;> cases vars <;> simp_all
+
+theorem getMap_inv (existing query opName : Bytes) (vars : Option Bytes)
+    (he : allBytes existing = true) (hq : allBytes query = true) (ho : allBytes opName = true)
+    (hv : ∀ v, vars = some v → allBytes v = true) :
+    KD (getMap existing query opName vars) ∧ MB (getMap existing query opName vars) := by
+  have h0 := foldl_mmAdd [] (parseQuery existing) [] (by simp [KD])
+  have b0 := MB_foldl (parseQuery existing) [] (by intro e he; cases he) (parseQuery_bytes existing he)
+  unfold getMap
+  simp only []
+  generalize (parseQuery existing).foldl (fun m kv => mmAdd m kv.1 kv.2) [] = m0 at h0 b0
+  have k0 := h0.1
+  have hk1 : KD (if query.isEmpty then m0 else mmSet m0 kQuery query) ∧ MB (if query.isEmpty then m0 else mmSet m0 kQuery query) := by
+    split
+    · exact ⟨k0, b0⟩
+    · exact ⟨KD_mmSet _ _ _ k0, MB_mmSet _ _ _ b0 (by decide) hq⟩
+  generalize (if query.isEmpty then m0 else mmSet m0 kQuery query) = m1 at hk1
+  have hk2 : KD (if opName.isEmpty then m1 else mmSet m1 kOpName opName) ∧ MB (if opName.isEmpty then m1 else mmSet m1 kOpName opName) := by
+    split
+    · exact hk1
+    · exact ⟨KD_mmSet _ _ _ hk1.1, MB_mmSet _ _ _ hk1.2 (by decide) ho⟩
+  generalize (if opName.isEmpty then m1 else mmSet m1 kOpName opName) = m2 at hk2
+  cases vars with
+  | none => exact hk2
+  | some v => exact ⟨KD_mmSet _ _ _ hk2.1, MB_mmSet _ _ _ hk2.2 (by decide) (hv v rfl)⟩
+
+/-- what url.Values.Get / [] would return for key k in the map -/
+theorem getMap_lookup (existing query opName : Bytes) (vars : Option Bytes) (k : Bytes) :
+    lookupMM k (getMap existing query opName vars) =
+      if (kVariables == k) = true ∧ vars.isSome = true then [vars.getD []]
+      else if (kOpName == k) = true ∧ opName.isEmpty = false then [opName]
+      else if (kQuery == k) = true ∧ query.isEmpty = false then [query]
+      else valuesOf k (parseQuery existing) := by
+  have h0 := foldl_mmAdd k (parseQuery existing) [] (by simp [KD])
+  unfold getMap
+  simp only []
+  generalize (parseQuery existing).foldl (fun m kv => mmAdd m kv.1 kv.2) [] = m0 at h0
+  have l0 : lookupMM k m0 = valuesOf k (parseQuery existing) := by
+    rw [h0.2]; simp [lookupMM]
+  have k0 := h0.1
+  -- query
+  have h1 : KD (if query.isEmpty then m0 else mmSet m0 kQuery query) ∧
+      lookupMM k (if query.isEmpty then m0 else mmSet m0 kQuery query) =
+        if (kQuery == k) = true ∧ query.isEmpty = false then [query] else valuesOf k (parseQuery existing) := by
+    cases hq : query.isEmpty
+    · simp only [Bool.false_eq_true, if_false, and_true]
+      refine ⟨KD_mmSet _ _ _ k0, ?_⟩
+      by_cases hk : (kQuery == k) = true
+      · have : kQuery = k := by simpa using hk
+        rw [← this, lookup_mmSet_same _ _ _ k0]; simp
+      · have hk' : (kQuery == k) = false := by simpa using hk
+        rw [lookup_mmSet_other _ _ _ _ hk', l0]; simp [hk']
+    · simp only [if_true, Bool.true_eq_false, and_false, if_false]
+      exact ⟨k0, l0⟩
+  generalize (if query.isEmpty then m0 else mmSet m0 kQuery query) = m1 at h1
+  have h2 : KD (if opName.isEmpty then m1 else mmSet m1 kOpName opName) ∧
+      lookupMM k (if opName.isEmpty then m1 else mmSet m1 kOpName opName) =
+        if (kOpName == k) = true ∧ opName.isEmpty = false then [opName]
+        else if (kQuery == k) = true ∧ query.isEmpty = false then [query] else valuesOf k (parseQuery existing) := by
+    cases ho : opName.isEmpty
+    · simp only [Bool.false_eq_true, if_false, and_true]
+      refine ⟨KD_mmSet _ _ _ h1.1, ?_⟩
+      by_cases hk : (kOpName == k) = true
+      · have : kOpName = k := by simpa using hk
+        rw [← this, lookup_mmSet_same _ _ _ h1.1]; simp
+      · have hk' : (kOpName == k) = false := by simpa using hk
+        rw [lookup_mmSet_other _ _ _ _ hk', h1.2]; simp [hk']
+    · simp only [if_true, Bool.true_eq_false, and_false, if_false]
+      exact h1
+  generalize (if opName.isEmpty then m1 else mmSet m1 kOpName opName) = m2 at h2
+  cases vars with
+  | none => simp only [Option.isSome_none, Bool.false_eq_true, and_false, if_false]; exact h2.2
+  | some v =>
+    simp only [Option.isSome_some, and_true, Option.getD_some]
+    by_cases hk : (kVariables == k) = true
+    · have : kVariables = k := by simpa using hk
+      rw [← this, lookup_mmSet_same _ _ _ h2.1]; simp
+    · have hk' : (kVariables == k) = false := by simpa using hk
+      rw [lookup_mmSet_other _ _ _ _ hk', h2.2]; simp [hk']
+
+/-- **C11_get_url_decodes** — the GET URL is lossless: for every endpoint query string and every
+    request (any bytes in the document, operation name and marshaled variables), parsing the URL
+    createGetRequest builds gives back, for every key k, exactly: the request's variables under
+    "variables", its operation name under "operationName", its document under "query" (each once,
+    replacing whatever the endpoint had under those names), and for every other key the
+    endpoint's own values, in their order.  Nothing else is added and nothing is lost. -/
+theorem C11_get_url_decodes (existing query opName : Bytes) (vars : Option Bytes) (k : Bytes)
+    (he : allBytes existing = true) (hq : allBytes query = true) (ho : allBytes opName = true)
+    (hv : ∀ v, vars = some v → allBytes v = true)
+    (hu : query.isEmpty = false ∨ opName.isEmpty = false ∨ vars.isSome = true) :
+    valuesOf k (parseQuery (getRawQuery existing query opName vars)) =
+      if (kVariables == k) = true ∧ vars.isSome = true then [vars.getD []]
+      else if (kOpName == k) = true ∧ opName.isEmpty = false then [opName]
+      else if (kQuery == k) = true ∧ query.isEmpty = false then [query]
+      else valuesOf k (parseQuery existing) := by
+  have hi := getMap_inv existing query opName vars he hq ho hv
+  rw [getRawQuery_eq _ _ _ _ hu, parseQuery_encodeValues _ (flatten_bytes _ hi.2), valuesOf_flatten,
+    lookup_sortMM _ _ hi.1, getMap_lookup]
+
+/-- an empty request leaves the endpoint's query string untouched -/
+theorem C11_get_url_untouched_when_empty (existing : Bytes) :
+    getRawQuery existing [] [] none = existing := by
+  simp [getRawQuery]
+
+theorem trimLeft_spaces (ws x : List Nat) (h : ws.all isSpace = true) : trimLeft (ws ++ x) = trimLeft x := by
+  induction ws with
   | nil => rfl
-  | cons b bs ih =>
-    have hb : b < 256 := by
-      have := hs; simp [allBytes, isByte] at this; exact this.1
-    have hbs : allBytes bs = true := by
-      have := hs; simp [allBytes, isByte] at this
-      simp [allBytes, isByte]; exact this.2
-    simp only [queryEscape]
-    rw [unescape_escapeByte b hb, ih hbs]
-    rfl
+  | cons c cs ih =>
+    simp only [List.all_cons, Bool.and_eq_true] at h
+    simp only [List.cons_append, trimLeft, h.1, if_true]
+    exact ih h.2
+
+theorem hasPrefix_self (p r : List Nat) : hasPrefix p (p ++ r) = true := by
+  induction p with
+  | nil => rfl
+  | cons c cs ih => simp [hasPrefix, ih]
+
+/-- **C11_gate_on_emitted_documents** — for every document that starts, after any white space,
+    with its operation keyword (what the generator emits: `query Name…`, `mutation Name…`,
+    `subscription Name…`), whatever follows: the GET client refuses mutations and subscriptions,
+    the POST client refuses subscriptions, and everything else passes the gate -/
+theorem C11_gate_on_emitted_documents (ws rest : List Nat) (h : ws.all isSpace = true) :
+    kindGate .get (ws ++ (kwMutation ++ rest)) = .refuseMutation ∧
+    kindGate .get (ws ++ (kwSubscription ++ rest)) = .refuseSubscription ∧
+    kindGate .post (ws ++ (kwSubscription ++ rest)) = .refuseSubscription ∧
+    kindGate .get (ws ++ (kwQuery ++ rest)) = .pass ∧
+    kindGate .post (ws ++ (kwQuery ++ rest)) = .pass ∧
+    kindGate .post (ws ++ (kwMutation ++ rest)) = .pass := by
+  have hm : trimLeft (kwMutation ++ rest) = kwMutation ++ rest := by simp [kwMutation, trimLeft, isSpace]
+  have hs : trimLeft (kwSubscription ++ rest) = kwSubscription ++ rest := by simp [kwSubscription, trimLeft, isSpace]
+  have hq : trimLeft (kwQuery ++ rest) = kwQuery ++ rest := by simp [kwQuery, trimLeft, isSpace]
+  have ne : ∀ kw : List Nat, kw ≠ [] → (ws ++ (kw ++ rest)).isEmpty = false := by
+    intro kw hkw; cases ws <;> cases kw <;> simp_all
+  refine ⟨?_, ?_, ?_, ?_, ?_, ?_⟩
+  · simp only [kindGate, ne kwMutation (by decide), Bool.false_eq_true, if_false, trimLeft_spaces _ _ h, hm, hasPrefix_self, if_true]
+  · simp only [kindGate, ne kwSubscription (by decide), Bool.false_eq_true, if_false, trimLeft_spaces _ _ h, hs, hasPrefix_self, if_true]
+    simp [kwMutation, kwSubscription, hasPrefix]
+  · simp only [kindGate, ne kwSubscription (by decide), Bool.false_eq_true, if_false, trimLeft_spaces _ _ h, hs, hasPrefix_self, if_true]
+  · simp only [kindGate, ne kwQuery (by decide), Bool.false_eq_true, if_false, trimLeft_spaces _ _ h, hq]
+    simp [kwMutation, kwSubscription, kwQuery, hasPrefix]
+  · simp only [kindGate, ne kwQuery (by decide), Bool.false_eq_true, if_false, trimLeft_spaces _ _ h, hq]
+    simp [kwSubscription, kwQuery, hasPrefix]
+  · simp only [kindGate, ne kwMutation (by decide), Bool.false_eq_true, if_false, trimLeft_spaces _ _ h, hm]
+    simp [kwSubscription, kwMutation, hasPrefix]
+
+/-- the gate is a text-prefix test, so the unrestricted statement ("never transmits a mutation")
+    is false of it: a document that starts with a comment passes (finding F-11) -/
+theorem C11_gate_comment_bypass_witness :
+    kindGate .get ([35, 99, 10] ++ kwMutation ++ [32, 77, 123, 102, 125]) = .pass := by decide
 
 /-- non-vacuity: a string with every class of byte (plain, space, reserved, high) -/
 example : queryUnescape (queryEscape [97, 32, 38, 61, 43, 37, 255, 0]) = some [97, 32, 38, 61, 43, 37, 255, 0] := by
   decide
+
+-- non-vacuity of C11_get_url_decodes: endpoint "?a=1&query=old", document "{a}" with '&' and '=' in the name
+example : parseQuery (getRawQuery [97, 61, 49, 38, 113, 117, 101, 114, 121, 61, 111] [123, 97, 125] [38, 61] (some [123, 125]))
+    = [([97], [49]), (kOpName, [38, 61]), (kQuery, [123, 97, 125]), (kVariables, [123, 125])] := by decide
 
 end Genq.Http
